@@ -25,8 +25,9 @@ Sources
                                                +-----+
   T1 (high) = the two most significant bits of T1 (bits 10, 9), T1 (middle) = bits 8..1, T1 (low) = bit 0;
   T3' (high) = bits 2, 1 of T3', T3' (low) = bit 0.
-* order of the 25 bits d(0)..d(24) at the channel coder (TS 45.003 §4.7 takes "the 25 information bits"; TS 44.004 §7.?
-  "order of bit transmission": bit 1 of octet 1 first): d(8·(N−1) + (M−1)) = bit M of octet N.
+* order of the 25 bits d(0)..d(24) handed to the channel coder (TS 45.003 §4.7 codes "the 25 information bits"; TS 44.018
+  §9.1.30 refers to TS 44.004 for the order of bit transmission: bit 1 of octet 1 first, then bit 2, ...):
+      d(8·(N−1) + (M−1)) = bit M of octet N.
 
 The 32-bit word both decoders work on carries d(k) in bit k (weight 2^k), i.e. octet N is byte N−1 of a little-endian
 word:  word = octet1 + 2^8·octet2 + 2^16·octet3 + 2^24·octet4.
